@@ -611,11 +611,11 @@ def main():
                  'real hash order and OS scheduling are exercised only by the runs (test level)'],
         explanation='PROVED. (1) pins over the inventories regenerated from the source: global_state_sites_benign, unordered_iteration_sites_sorted, lookup_tables_have_distinct_keys, '
                     'per_file_mutations_hit_per_call_objects, accumulators_per_call, nondeterminism_sources_benign. (2) model of main / check_all / check_file_s / check_file with explicit global '
-                    'state (patched flag, caches; per-worker state in the pool): no_history, no_history_perm, multi_file_concat, main_concat_of_single_runs, patch_environment_once; '
-                    'stale_cache_breaks_no_history (what the pureCache pin excludes). (3) hash-order model (set iteration = arbitrary permutation): sorted_kills_order and the per-site '
+                    'state (patched flag, caches; per-worker state in the pool): no_history, no_history_perm, multi_file_concat, main_concat_of_single_runs (for every kind of stdout), colour_independent_of_jobs, patch_environment_once; '
+                    'stale_cache_breaks_no_history, probe_of_swapped_stdout_depends_on_jobs (what the pins exclude). (3) hash-order model (set iteration = arbitrary permutation): sorted_kills_order and the per-site '
                     'corollaries sorted_join/sorted_for/sorted_by_injective_key/any_match/dict_get/best_match/the_only _seed_independent; raw_join_depends_on_seed, tie_in_key_leaks_order. '
                     '(4) jobs_schedule_irrelevant, concat_of_single_runs (stateless model), tied to the real check_all by the check_all correspondence. '
-                    'TEST level: real hash order, real scheduling, and everything the classifier cannot see — the determinism runs.')
+                    'TEST level: real hash order, real scheduling, real terminals (pseudo-terminal runs), and everything the classifier cannot see — the determinism runs.')
 
 if __name__ == '__main__':
     common.main_wrapper(main)
